@@ -4,7 +4,7 @@
    bit-exactly by the correspondence run; `logf` is an oracle (see DESIGN.md §2.6): this part of
    the property is therefore *partial* as far as theorems go. *)
 From Coq Require Import Reals.
-From HpoV Require Import Model.Base Model.F32 Model.IC Proofs.C03P.
+From HpoV Require Import Gen.Consts Model.Base Model.Group Model.Onto Model.F32 Model.IC Model.Script Model.Bulk Proofs.C03P Proofs.C03W Proofs.BulkP.
 
 Theorem C03_formula_nonnegative : forall n total, (n <= total)%nat -> (0 <= icR n total)%R.
 Proof. exact icR_nonneg. Qed.
@@ -36,6 +36,32 @@ Theorem C03_f32_formula : forall fln total current, total <> 0 -> current <> 0 -
     end.
 Proof. exact ic32_formula. Qed.
 
+(* THE WHOLE ONTOLOGY: calculate_information_content gives every term, for each of the three kinds
+   independently, InformationContent::calculate (number of records of THAT kind, number of the
+   term's annotations of THAT kind) and touches nothing else *)
+Theorem C03_every_term_every_kind : forall icf o o', b_calculate_ic icf o = Ok o' ->
+  (forall k, o_records k o' = o_records k o) /\ o_version o' = o_version o /\
+  o_cat o' = o_cat o /\ o_mod o' = o_mod o /\ ar_ph (o_arena o') = ar_ph (o_arena o) /\
+  Forall2 (fun t t' => t' = set_ic (t_ic t') t /\
+                       forall k, icf (Nlen (o_records k o)) (Nlen (t_annots k t)) = Ok (ic_of k (t_ic t')))
+          (ar_terms (o_arena o)) (ar_terms (o_arena o')).
+Proof. exact calculate_ic_spec. Qed.
+
+(* more than 65 535 records of a kind that some term carries: no ontology is built *)
+Theorem C03_refuses_over_u16 : forall fln o k t, In t (ar_terms (o_arena o)) ->
+  U16_MAX < Nlen (o_records k o) -> t_annots k t <> [] ->
+  forall o', b_calculate_ic (ic32 fln) o <> Ok o'.
+Proof. exact calculate_ic_refuses_large. Qed.
+
+(* the correspondence run reaches that limit with a block of add_* calls that the model appends at
+   once (Model/Bulk.v); the block IS the run of calls, for every first id, count and builder state *)
+Theorem C03_bulk_block_is_calls : forall k first count o, bulk_add k first count o = bulk_slow k first count o.
+Proof. exact bulk_add_is_calls. Qed.
+
+Theorem C03_bulk_script : forall icf s tag first count, tag <? 3 = true ->
+  run_script_bulk icf s tag first count = run_script icf (with_bulk s tag first count).
+Proof. exact run_script_bulk_is_script. Qed.
+
 Print Assumptions C03_formula_nonnegative.
 Print Assumptions C03_formula_antitone.
 Print Assumptions C03_formula_zero.
@@ -43,3 +69,7 @@ Print Assumptions C03_formula_all_records.
 Print Assumptions C03_f32_zero_guard.
 Print Assumptions C03_f32_conversion_guard.
 Print Assumptions C03_f32_formula.
+Print Assumptions C03_every_term_every_kind.
+Print Assumptions C03_refuses_over_u16.
+Print Assumptions C03_bulk_block_is_calls.
+Print Assumptions C03_bulk_script.
